@@ -93,6 +93,11 @@ def native_coverage(prop, res, sig):
         "simulated_time_scheduler_steps": int(st.get("sched_steps", 0)),
         "simulated_time_ticks": int(st.get("ticks", 0)),
         "context_switches": int(st.get("context_switches", 0)),
+        "distinct_seam_level_interleavings": {
+            "count": int(res.trace_sum),
+            "measure": "distinct hashes of the (task, seam site, slot, slot-value class) sequence of the scheduled variant, "
+                       "counted per worker and summed (an upper bound on the union; different workers run different families)",
+        },
         "seam_events": int(st.get("seam_events", 0)),
         "faults_fired": {
             "cpu.no_avx2 (episodes)": st.get("episodes_by_cpu", [0, 0, 0])[1],
@@ -102,6 +107,7 @@ def native_coverage(prop, res, sig):
             "dispatch.detect_runs": st.get("detect_runs", 0),
             "dispatch.stale_read (injected/eligible)": [st.get("stale_reads_injected", 0), st.get("stale_reads_eligible", 0)],
             "sched.preempt (context switches)": st.get("context_switches", 0),
+            "sched.tick_preempt (preemptions inside search loops)": st.get("tick_preemptions", 0),
             "mem.flush_left (buffers)": st.get("place_left", 0),
             "mem.flush_right (buffers)": st.get("place_right", 0),
             "mem.interior (buffers)": st.get("place_mid", 0),
